@@ -8,16 +8,19 @@ MODE="${1:-quick}"
 mkdir -p "$ROOT/target" "$ROOT/replays"
 LOGO="$ROOT/target/build-obligations.log"; LOGU="$ROOT/target/build-forbid-unsafe.log"; LOGL="$ROOT/target/build-sync-lib.log"; LOGH="$ROOT/target/build-hooks.log"
 ( cd "$ROOT/harness" && RUSTFLAGS="--cfg jmespath_rs_verif" CARGO_TARGET_DIR="$ROOT/target/hooks" cargo build --release --offline --features sched >"$LOGH" 2>&1 ) & ph=$!
+# leg 2c: the harness against a copy of the crate whose std::sync / std::thread / thread_local! resolve to shuttle's types
+LOGI="$ROOT/target/build-intercept.log"
+( "$ROOT/scripts/c16-intercept-build.sh" /repo "$ROOT/harness" "$ROOT/target/c16-intercept-src" "$ROOT/target/intercept" >"$LOGI.out" 2>"$LOGI" ) & pi=$!
 # does the library itself build with the feature?
 ( cd /repo/jmespath && CARGO_TARGET_DIR="$ROOT/target/sync-lib" cargo build --lib --features sync --offline >"$LOGL" 2>&1 ) & pl=$!
 wait $pl; rl=$?
-if [ $rl -ne 0 ]; then wait $ph; echo "MACHINERY: /repo/jmespath does not build with --features sync (see $LOGL)" >&2; tail -n 20 "$LOGL" >&2; exit 2; fi
+if [ $rl -ne 0 ]; then wait $ph; wait $pi; echo "MACHINERY: /repo/jmespath does not build with --features sync (see $LOGL)" >&2; tail -n 20 "$LOGL" >&2; exit 2; fi
 ( cd "$ROOT/obligations" && CARGO_TARGET_DIR="$ROOT/target/obligations" cargo build --offline >"$LOGO" 2>&1 ); ro=$?
 ( cd /repo/jmespath && CARGO_TARGET_DIR="$ROOT/target/forbid-unsafe" cargo rustc --lib --features sync --offline -- -F unsafe_code >"$LOGU" 2>&1 ); ru=$?
 NOBL=$(grep -c 'Send' "$ROOT/obligations/src/lib.rs" | head -1)
 NOBL=$(sed -n '/pub const OBLIGATIONS/,/^];/p' "$ROOT/obligations/src/lib.rs" | grep -c '^    "')
 if [ $ro -ne 0 ] || [ $ru -ne 0 ]; then
-  wait $ph
+  wait $ph; wait $pi
   # the library builds, an obligation does not: that is a verdict
   f="$ROOT/replays/C16-obligations.json"
   { echo '{"property":"C16","check":"type-level-obligations","key":"C16/obligation-not-discharged","case":{"kind":"obligations"},'
@@ -33,5 +36,13 @@ PY
   exit 1
 fi
 wait $ph || { echo "MACHINERY: hooks-on harness build failed (see $LOGH)" >&2; tail -n 30 "$LOGH" >&2; exit 2; }
+if wait $pi; then
+  export JPV_INTERCEPT_BIN="$(tail -n 1 "$LOGI.out")"
+else
+  # the rewritten copy does not build (e.g. a std primitive shuttle has no counterpart for): the leg is skipped and
+  # said so in the evidence; that is not a verdict about the property
+  export JPV_INTERCEPT_NOTE="the rewritten copy of the crate did not build: $(grep -m1 -E '^(error|intercept:)' "$LOGI" | cut -c1-200)"
+  unset JPV_INTERCEPT_BIN
+fi
 if [ "$MODE" = "--replay" ]; then exec "$ROOT/target/hooks/release/jpv" C16 --replay "$2"; fi
 exec "$ROOT/target/hooks/release/jpv" C16 "$MODE" $((NOBL + 1))
